@@ -468,3 +468,60 @@ Definition check_create (u : ccase) : bool :=
   let s0 := fst (snd u) in
   list_eqb fsop_eqb (exec2 w xs ys NoFault) (fst (snd (snd u))) &&
   forallb (check_create_fault w xs ys s0) (snd (snd (snd u))).
+
+(* ================================================================ overlapping updates *)
+(* Two updates of state files that OVERLAP inside one process (Status.update has no lock of its own: the
+   StatusMonitor thread and the thread that handles a failure / a shutdown signal, each with a Status object on
+   the same output/status.txt, or sharing one): the operations of the two calls reach the file system in some
+   interleaving, chosen by the scheduler ([true] = the next operation of the first call).  When one call has
+   nothing left the other one runs to its end.  The path-level file system above stands for the real one as
+   long as no two overlapping updates use the same temporary path (a descriptor that stays open on a path the
+   other update truncates or renames is outside it) - which is what the theorems assume and the
+   correspondence checks on the recorded traces: every update writes a temporary file of its own. *)
+Fixpoint interleave (sch : list bool) (a b : list fsop) : list fsop :=
+  match sch with
+  | [] => (a ++ b)%list
+  | true :: r => match a with o :: a' => o :: interleave r a' b | [] => b end
+  | false :: r => match b with o :: b' => o :: interleave r a b' | [] => a end
+  end.
+
+(* Status.update of one of two overlapping calls: t = the (canonical) name of ITS temporary file *)
+Definition status_update_as (t : path) (d : list (string * string)) : list txn :=
+  [good_txn t "status.txt" (fun _ => status_chunks d) false false].
+(* the conf.py / interface-file helper, likewise *)
+Definition file_update_as (t f : path) (cs : list string) : list txn :=
+  [good_txn t f (fun _ => cs) true true].
+
+(* texts of the state file p after every operation of a trace (every one is a point where the process may die) *)
+Fixpoint states_after (p : path) (ops : list fsop) (s : fs) : list (option string) :=
+  match ops with
+  | [] => []
+  | o :: r => read p (apply o s) :: states_after p r (apply o s)
+  end.
+
+(* one faulted re-run of an overlap: the faults of the two calls (a death of the process = the first n operations
+   of the interleaving, the dying call carrying the partial write), the schedule, n, the shape of the observed
+   trace and what was observed in the files afterwards *)
+Definition ofcase := ((fault * fault) * (list bool * (nat * (list fsop * list (path * otag)))))%type.
+(* one overlap: the two updates, the files before, the schedule, the observed fault-free trace, the observed
+   text of the state file after each of its operations, the faulted re-runs *)
+Definition ovcase :=
+  ((list txn * list txn) * (fs * (list bool * (list fsop * ((path * list (option string)) * list ofcase)))))%type.
+
+Definition check_ofault (xs ys : list txn) (s0 : fs) (c : ofcase) : bool :=
+  let fa := fst (fst c) in let fb := snd (fst c) in
+  let sch := fst (snd c) in let n := fst (snd (snd c)) in
+  let ops := firstn n (interleave sch (exec xs true fa) (exec ys true fb)) in
+  list_eqb fsop_eqb (map shape ops) (fst (snd (snd (snd c)))) &&
+  forallb (fun pc => otag_ok (xs ++ ys)%list s0 (run ops s0) (fst pc) (snd pc)) (snd (snd (snd (snd c)))).
+
+Definition check_overlap (u : ovcase) : bool :=
+  let xs := fst (fst u) in let ys := snd (fst u) in
+  let s0 := fst (snd u) in let sch := fst (snd (snd u)) in
+  let obs := fst (snd (snd (snd u))) in
+  let p := fst (fst (snd (snd (snd (snd u))))) in
+  let sts := snd (fst (snd (snd (snd (snd u))))) in
+  let m := interleave sch (exec xs true NoFault) (exec ys true NoFault) in
+  list_eqb fsop_eqb m obs &&
+  list_eqb ostr_eqb (states_after p m s0) sts &&
+  forallb (check_ofault xs ys s0) (snd (snd (snd (snd (snd u))))).
